@@ -247,15 +247,15 @@ func (x *Exec) havocLike(st *State, old Value, t types.Type, name string) Value 
 		x.symArrCtr++
 		return &SymArr{elem: o.elem, name: fmt.Sprintf("%s_h%d", o.name, x.symArrCtr)}
 	case *SliceV:
-		if o.cell == nil {
-			// may become non-nil in the loop: keep nil-ness unknown is unsupported
-			return o
-		}
+		// a slice variable assigned in the loop: fresh symbolic contents and length
 		ln := freshVar(name+"$len", SInt)
 		st.axiom(mkLe(mkInt(0), ln))
 		cp := freshVar(name+"$cap", SInt)
 		st.axiom(mkLe(ln, cp))
-		return &SliceV{cell: o.cell, off: o.off, len: ln, cap: cp, elem: o.elem}
+		x.symArrCtr++
+		cell := newCell(name, types.NewArray(o.elem, -1))
+		st.store[cell] = &SymArr{elem: o.elem, name: fmt.Sprintf("%s_h%d", sanitize(name), x.symArrCtr)}
+		return &SliceV{cell: cell, off: mkInt(0), len: ln, cap: cp, elem: o.elem, named: o.named}
 	case *Ptr, *Func, *AbsObj, *Iface, *Opaque, *Str, *MapV:
 		return old
 	}
